@@ -78,6 +78,7 @@ struct Run {
     minor_after: String,
     panicked: bool,
     oob: bool,
+    dirty: Vec<u64>,
 }
 
 fn memfd_append() -> RawFd {
@@ -110,7 +111,7 @@ fn run_case_async(cx: &Ctx, kv: &Kv) -> Run {
     let cap = kn(kv, "cap") as usize;
     let fusedev = ks(kv, "t") == "fusedev";
     let server = Server::new(ScriptFs::new(kv.clone()));
-    let mut run = Run { calls: String::new(), sys: vec![], area: String::new(), area_raw: vec![], ret: String::new(), minor_after: String::new(), panicked: false, oob: false };
+    let mut run = Run { calls: String::new(), sys: vec![], area: String::new(), area_raw: vec![], ret: String::new(), minor_after: String::new(), panicked: false, oob: false, dirty: vec![] };
     if let Some(pm) = kv.get("pre_minor") {
         let minor: u32 = pm.parse().unwrap_or(33);
         let mut b = srvgen::B::new();
@@ -241,7 +242,7 @@ fn run_case(cx: &Ctx, kv: &Kv) -> Run {
     let fusedev = ks(kv, "t") == "fusedev";
     let fs = ScriptFs::new(kv.clone());
     let server = Server::new(fs);
-    let mut run = Run { calls: String::new(), sys: vec![], area: String::new(), area_raw: vec![], ret: String::new(), minor_after: String::new(), panicked: false, oob: false };
+    let mut run = Run { calls: String::new(), sys: vec![], area: String::new(), area_raw: vec![], ret: String::new(), minor_after: String::new(), panicked: false, oob: false, dirty: vec![] };
     // optional pre-INIT to set the negotiated minor version
     if let Some(pm) = kv.get("pre_minor") {
         let minor: u32 = pm.parse().unwrap_or(33);
@@ -300,6 +301,9 @@ fn run_case(cx: &Ctx, kv: &Kv) -> Run {
         if let Some(a) = guard_after {
             vq::write_bytes(&cx.mem, a, &[0xC3; 16]);
         }
+        // the harness's own stores above marked pages dirty: start from a clean bitmap
+        let _ = vq::take_dirty(&cx.mem, vq::A_BASE);
+        let _ = vq::take_dirty(&cx.mem, vq::B_BASE);
         let res = catch_unwind(AssertUnwindSafe(|| {
             let chain = vq::build_chain(&cx.mem, &segs);
             let r = Reader::from_descriptor_chain(&cx.mem, chain.clone()).unwrap();
@@ -307,6 +311,10 @@ fn run_case(cx: &Ctx, kv: &Kv) -> Run {
             let vr: Option<&mut dyn FsCacheReqHandler> = if vu { Some(&mut nocache) } else { None };
             server.handle_message(r, Writer::VirtioFs(w), vr, None)
         }));
+        let mut dirty: Vec<u64> = vq::take_dirty(&cx.mem, vq::A_BASE).into_iter().map(|i| vq::A_BASE / 4096 + i as u64).collect();
+        dirty.extend(vq::take_dirty(&cx.mem, vq::B_BASE).into_iter().map(|i| vq::B_BASE / 4096 + i as u64));
+        dirty.sort();
+        run.dirty = dirty;
         match res {
             Ok(Ok(n)) => run.ret = format!("ok:{}", n),
             Ok(Err(e)) => run.ret = format!("err:{}", err_name(&e)),
@@ -434,7 +442,41 @@ fn exec(cx: &Ctx, line: &str, out: &mut Out) -> String {
     let sys: Vec<String> = run.sys.iter().map(|b| hex(b)).collect();
     // the model reports the negotiated minor after the request; the implementation's is probed
     // by behaviour only in dedicated C12 cases, so it is not part of the compared line
-    let impl_line = format!("calls={} sys={} area={} ret={}", run.calls, sys.join(","), run.area, run.ret);
+    let dirty_s: Vec<String> = run.dirty.iter().map(|p| p.to_string()).collect();
+    let impl_line = format!("calls={} sys={} area={} ret={} dirty={}", run.calls, sys.join(","), run.area, run.ret, dirty_s.join(","));
+
+    // C17 (through the whole server): every modified byte of guest memory lies in a dirty page,
+    // and no page outside the writable descriptors is dirty
+    if !fusedev {
+        let rl = nat_list(ks(&kv, "seg"));
+        let wl = nat_list(ks(&kv, "wseg"));
+        let segs = vq::place(kn(&kv, "lay"), &rl, &wl);
+        let mut pos = 0usize;
+        let mut wpages = std::collections::BTreeSet::new();
+        let mut missed = false;
+        for sgm in segs.iter().filter(|x| x.writable) {
+            for i in 0..sgm.len as usize {
+                let pg = (sgm.addr + i as u64) / 4096;
+                wpages.insert(pg);
+                if run.area_raw.get(pos + i).map(|&b| b != vq::fill(pos + i)).unwrap_or(false) && !run.dirty.contains(&pg) {
+                    missed = true;
+                }
+            }
+            pos += sgm.len as usize;
+        }
+        if missed {
+            let v = serde_json::json!({"prop": "C17", "key": format!("C17:srv:missed-dirty:op{}", if req.len() >= 8 { le32(&req, 4) } else { 0 }), "case": line, "what": "a modified byte of the reply area lies in a page not marked dirty"});
+            use std::io::Write;
+            writeln!(out.oracle, "{}", v).unwrap();
+            out.n_oracle += 1;
+        }
+        if run.dirty.iter().any(|p| !wpages.contains(p)) {
+            let v = serde_json::json!({"prop": "C17", "key": format!("C17:srv:spurious-dirty:op{}", if req.len() >= 8 { le32(&req, 4) } else { 0 }), "case": line, "what": "a page outside the writable descriptors was marked dirty"});
+            use std::io::Write;
+            writeln!(out.oracle, "{}", v).unwrap();
+            out.n_oracle += 1;
+        }
+    }
 
     // ---------------- direct oracles (implementation alone, no model) ----------------
     let op = if req.len() >= 8 { le32(&req, 4) } else { u32::MAX };
@@ -722,7 +764,10 @@ fn mk_case(g: &mut GenCtx, op: u32, mutate: bool, prop: &str) -> String {
         let wl = split_lens(cap, r);
         let rls: Vec<String> = rl.iter().map(|x| x.to_string()).collect();
         let wls: Vec<String> = wl.iter().map(|x| x.to_string()).collect();
-        line.push_str(&format!("seg={} wseg={} lay={} ", rls.join(","), wls.join(","), r.below(32)));
+        let lay = r.below(32);
+        let placed = vq::place(lay, &rl, &wl);
+        let wa: Vec<String> = placed.iter().filter(|x| x.writable).map(|x| format!("{}:{}", x.addr, x.len)).collect();
+        line.push_str(&format!("seg={} wseg={} lay={} waddr={} ", rls.join(","), wls.join(","), lay, wa.join(",")));
     }
     line.push_str(&format!("req={} {}", hex(&req), ans));
     line
